@@ -9,6 +9,10 @@ import (
 
 var checks = map[string]func(tier string) int{
 	"C01": props.CheckC01,
+	"C02": props.CheckC02,
+	"C03": props.CheckC03,
+	"C04": props.CheckC04,
+	"C13": props.CheckC13,
 }
 
 func main() {
